@@ -93,6 +93,16 @@ Check (C09_unparsable_record_fails : forall msg nq an ns ar qs rs e1 e2, parsed 
     let mk := mkMarker e2 (a_type_off it) (a_type it) (a_class it) (a_ttl it) (a_rdlen it) (section_of (lin nq an ns ar) (idx - nq)) in
     exists r1 r2 e, rd_marker msg r = (r1, Ok (OMarker mk)) /\ rd_skip_data mk r1 = (r2, Err e) /\ r_done r2 = true
   end).
+Check (C09_seek_by_skipping : forall msg nq an ns ar qs rs e1 e2, parsed msg nq an ns ar qs rs e1 e2 ->
+  forall r hw s, RState msg nq an ns ar qs rs e2 r 0 hw -> s < 3 ->
+  known (lin nq an ns ar) (mkA 0 hw false None) s = false ->
+  lenN qs = nq -> sec_start (lin nq an ns ar) s <= lenN rs ->
+  exists r', rd_seek msg s r = (r', Ok OUnit) /\
+             RState msg nq an ns ar qs rs e2 r' (nq + sec_start (lin nq an ns ar) s) (N.max hw (nq + sec_start (lin nq an ns ar) s))).
+Check (C09_seek_refused : forall msg nq an ns ar qs rs e1 e2, parsed msg nq an ns ar qs rs e1 e2 ->
+  forall r idx hw s, RState msg nq an ns ar qs rs e2 r idx hw -> s < 3 ->
+  known (lin nq an ns ar) (mkA idx hw false None) s = false ->
+  0 < idx -> idx <= lenN qs + lenN rs -> rd_seek msg s r = (r, Err (RecordsSectionOffsetUnknown s))).
 Check (C09_reader_start : forall msg nq an ns ar qs rs e1 e2, parsed msg nq an ns ar qs rs e1 e2 ->
   forall h c, h_qd h = nq -> h_an h = an -> h_ns h = ns -> h_ar h = ar -> whole msg c -> pos c = 12 ->
   RState msg nq an ns ar qs rs e2 (mkReader c (tr_set tr_default h) false) 0 0).
@@ -102,4 +112,4 @@ Check (C09_linear_pass_parses : forall msg l, linear_of msg = Some l ->
     (lenN (l_qs l) < l_nq l -> question_at msg e2 = None) /\
     (lenN (l_qs l) = l_nq l -> lenN rs < nrec l ->
      match record_at msg e2 with Some it => a_data_ok it = false | None => True end)).
-Print Assumptions C09_stays_exhausted. Print Assumptions C09_error_latches. Print Assumptions C09_tracker_refines. Print Assumptions C09_tracker_init. Print Assumptions C09_counts. Print Assumptions C09_seek. Print Assumptions C09_record_section. Print Assumptions C09_tracker_example. Print Assumptions C09_question_parse_is_spec. Print Assumptions C09_record_parse_is_spec. Print Assumptions C09_reader_refines. Print Assumptions C09_complete_is_within. Print Assumptions C09_unparsable_question_fails. Print Assumptions C09_unparsable_record_fails. Print Assumptions C09_reader_start. Print Assumptions C09_linear_pass_parses.
+Print Assumptions C09_stays_exhausted. Print Assumptions C09_error_latches. Print Assumptions C09_tracker_refines. Print Assumptions C09_tracker_init. Print Assumptions C09_counts. Print Assumptions C09_seek. Print Assumptions C09_record_section. Print Assumptions C09_tracker_example. Print Assumptions C09_question_parse_is_spec. Print Assumptions C09_record_parse_is_spec. Print Assumptions C09_reader_refines. Print Assumptions C09_complete_is_within. Print Assumptions C09_unparsable_question_fails. Print Assumptions C09_unparsable_record_fails. Print Assumptions C09_seek_by_skipping. Print Assumptions C09_seek_refused. Print Assumptions C09_reader_start. Print Assumptions C09_linear_pass_parses.
